@@ -228,6 +228,9 @@ func Battery(m *Machine, md *Model, keys []string, step int, opt BatteryOpts) *M
 		}
 		// 2. ?key and ??key
 		for _, pre := range []string{"?", "??"} {
+			if len(pre+k) > 250 {
+				continue // the prefixed key would exceed the protocol's key length: not a command a client can send
+			}
 			got = m.Cmd("get " + pre + k + "\r\n")
 			pg := ParseGetReply(got)
 			if !pg.OK {
